@@ -84,6 +84,11 @@ func c15sub(c *ctx) {
 		c15handshakes(c, i)
 		c.o.flush()
 	}
+	// first connections of a not yet active user, let in together (c15together.go)
+	for i := 0; i < 4+n/20; i++ {
+		c15together(c, i, i%2 == 1)
+	}
+	c.o.flush()
 	// the refused connection's clean-up as a step of its own (c15refused.go)
 	c15refusedScripted(c)
 	c.o.flush()
